@@ -49,7 +49,7 @@ def run(rep):
     recs = []
     n = 90 if quick else 1500
     for b in range(n):
-        recs.append(grid_drive.volume_record(rng, b, fams[b % 6], ['chol', 'pmg', 'rot'][b % 3], dyadic=(b % 5 == 0)))
+        recs.append(grid_drive.volume_record(rng, b, fams[b % len(fams)], ['chol', 'pmg', 'rot'][b % 3], dyadic=(b % 5 == 0)))
     ns = list(range(1, 65)) + ([128, 255, 256, 511, 512] if quick else [100, 128, 255, 256, 511, 512, 1000, 1024, 2047, 2048, 4095, 4096])
     for k, nn in enumerate(ns):
         recs.append(grid_drive.roundtrip_record(n + k, nn))
